@@ -112,7 +112,7 @@ fn match_known<'a>(known: &'a [serde_json::Value], prop: Prop, f: &Found, scn: &
     })
 }
 
-const SESSION_LEN: u64 = 512;
+const SESSION_LEN: u64 = 4096;
 
 fn write_replay(prop: Prop, scn: &Scenario, f: &Found, original: &Scenario, attempts: usize, nondeterministic: bool, earlier: &[Scenario], process_death: bool) -> String {
     let dir = "/verif/replays";
@@ -142,7 +142,13 @@ fn write_replay(prop: Prop, scn: &Scenario, f: &Found, original: &Scenario, atte
 
 fn cmd_replay(env: &Env, file: &str) -> i32 {
     let text = std::fs::read_to_string(file).unwrap_or_else(|e| harness_error(&format!("cannot read {file}: {e}")));
-    let j: serde_json::Value = serde_json::from_str(&text).unwrap_or_else(|e| harness_error(&format!("bad replay file: {e}")));
+    // a replay file may hold a document nested deeper than serde_json's default limit of 128
+    let j: serde_json::Value = {
+        use serde::Deserialize;
+        let mut de = serde_json::Deserializer::from_str(&text);
+        de.disable_recursion_limit();
+        serde_json::Value::deserialize(&mut de).unwrap_or_else(|e| harness_error(&format!("bad replay file: {e}")))
+    };
     if j.get("process_death").and_then(|b| b.as_bool()).unwrap_or(false) && std::env::var("PROTOSIM_REPLAY_INNER").is_err() {
         // what is replayed is the death of a process: do it in one we can lose
         let exe = std::env::current_exe().unwrap_or_else(|e| harness_error(&format!("current_exe: {e}")));
@@ -613,6 +619,12 @@ fn cmd_check_worker(env: &Env, prop: Prop, args: &[String]) -> i32 {
         let out = std::process::Command::new(exe).arg("replay").arg(&path).output();
         match out {
             Ok(o) if o.status.code() == Some(1) => {}
+            Ok(o) if nondeterministic || n_violation_lines > 0 => {
+                // code that behaves differently from run to run cannot be pinned every time; what
+                // has been reported stands, this one is left out
+                println!("note: the replay of {path} did not reproduce in a fresh process (exit {:?}); not reported", o.status.code());
+                continue;
+            }
             Ok(o) => harness_error(&format!("replay of {path} in a fresh process did not reproduce the violation (exit {:?})", o.status.code())),
             Err(e) => harness_error(&format!("cannot spawn replay: {e}")),
         }
